@@ -69,7 +69,7 @@ def natlist(xs):
 
 # ---------------------------------------------------------------- translators / build
 TRANSLATORS = [("tr_limiters.py", "Gen/Limiters.v"), ("tr_labels.py", "Gen/Labels.v"),
-               ("tr_dispatch.py", "Gen/Dispatch.v")]
+               ("tr_dispatch.py", "Gen/Dispatch.v"), ("tr_effects.py", "Gen/Effects.v")]
 
 def regenerate():
     """Run every translator against the current /repo tree. Returns list of (translator, message) failures."""
